@@ -114,6 +114,7 @@ class SimOS:
         self.path = _SimPath(self)
         self.stats = {"cp": 0, "mv": 0, "cp_delayed": 0, "mv_delayed": 0, "polls_lagging": 0}
         self._lagging = {}  # dst -> True while a completion is pending
+        self.on_copy_done = None  # simulator callback: a sync copy reached the working directory
 
     def __getattr__(self, name):
         return getattr(os, name)
@@ -140,6 +141,8 @@ class SimOS:
         if op == "cp":
             if lat <= 0:
                 shutil.copyfile(src, dst)
+                if self.on_copy_done:
+                    self.on_copy_done(dst)
                 return 0
             self.stats["cp_delayed"] += 1
             size = os.path.getsize(src)
@@ -151,6 +154,8 @@ class SimOS:
             def done(src=src, dst=dst, key=key):
                 shutil.copyfile(src, dst)
                 self._lagging.pop(key, None)
+                if self.on_copy_done:
+                    self.on_copy_done(dst)
 
             self._clock.after(lat, done)
             return 0
